@@ -45,6 +45,8 @@ type routeOp struct {
 	az    bool
 	mask  int
 	cmds  []int
+	lft   bool  // ConnLifetime > 0: the batch entry points recover from errConnExpired by re-sending the rest
+	exp   []int // exp[k]: in the k-th connection call the commands from this batch position on answer errConnExpired
 }
 
 func optInt(p *int) string {
@@ -59,11 +61,19 @@ func (o routeOp) line() string {
 	for i, c := range o.cmds {
 		cs[i] = strconv.Itoa(c)
 	}
+	tail := ""
+	if o.lft {
+		es := make([]string, len(o.exp))
+		for i, e := range o.exp {
+			es[i] = strconv.Itoa(e)
+		}
+		tail = " lft=1 exp=" + joinList(es, ",")
+	}
 	switch o.mode {
 	case "sa":
-		return fmt.Sprintf("sa api=%s nrep=%d pred=%s sel=%s az=%s mask=%d cmds=%s", o.api, o.nrep, b01(o.pred), optInt(o.sel), b01(o.az), o.mask, joinList(cs, ","))
+		return fmt.Sprintf("sa api=%s nrep=%d pred=%s sel=%s az=%s mask=%d cmds=%s", o.api, o.nrep, b01(o.pred), optInt(o.sel), b01(o.az), o.mask, joinList(cs, ",")) + tail
 	case "se":
-		return fmt.Sprintf("se api=%s ro=%s pred=%s mask=%d cmds=%s", o.api, b01(o.ro), b01(o.pred), o.mask, joinList(cs, ","))
+		return fmt.Sprintf("se api=%s ro=%s pred=%s mask=%d cmds=%s", o.api, b01(o.ro), b01(o.pred), o.mask, joinList(cs, ",")) + tail
 	}
 	return fmt.Sprintf("cl api=%s ro=%s pred=%s rns=%s rs=%s nrep0=%d nrep1=%d mask=%d cmds=%s", o.api, b01(o.ro), b01(o.pred), optInt(o.rns), optInt(o.rs), o.nrep0, o.nrep1, o.mask, joinList(cs, ","))
 }
@@ -107,6 +117,15 @@ func parseRouteOp(l string) (o routeOp, ok bool) {
 			o.rns = pi(v)
 		case "rs":
 			o.rs = pi(v)
+		case "lft":
+			o.lft = v == "1"
+		case "exp":
+			if v != "_" {
+				for _, x := range strings.Split(v, ",") {
+					n, _ := strconv.Atoi(x)
+					o.exp = append(o.exp, n)
+				}
+			}
 		case "mask":
 			o.mask, _ = strconv.Atoi(v)
 		case "cmds":
@@ -245,6 +264,9 @@ func runOne(o routeOp) (ans string, items []delivered) {
 	switch o.mode {
 	case "sa":
 		opt := rueidis.ClientOption{InitAddress: []string{"p:1"}, SendToReplicas: pred, EnableReplicaAZInfo: o.az, DisableCache: true}
+		if o.lft {
+			opt.ConnLifetime = time.Hour
+		}
 		roleOf["p:1"] = delivered{role: "P"}
 		for i := 0; i < o.nrep; i++ {
 			a := fmt.Sprintf("r%d:1", i)
@@ -262,6 +284,9 @@ func runOne(o routeOp) (ans string, items []delivered) {
 	case "se":
 		opt := rueidis.ClientOption{InitAddress: []string{"s0:26379"}, SendToReplicas: pred, ReplicaOnly: o.ro, DisableCache: true,
 			Sentinel: rueidis.SentinelOption{MasterSet: "mymaster"}}
+		if o.lft {
+			opt.ConnLifetime = time.Hour
+		}
 		roleOf["m:6379"] = delivered{role: "P"}
 		roleOf["r:6379"] = delivered{role: "R*"}
 		w.respond = func(addr string, e *entry, i int, _ context.Context) rueidis.RedisResult {
@@ -325,10 +350,59 @@ func runOne(o routeOp) (ans string, items []delivered) {
 	}
 	defer client.Close()
 	w.take()
+	if o.lft {
+		w.mu.Lock()
+		w.calls = 0
+		w.mu.Unlock()
+		inner := w.respond
+		w.respond = func(addr string, e *entry, i int, ctx context.Context) rueidis.RedisResult {
+			ci := cmdIndex(e.cmds[i])
+			pos := -1
+			for k, x := range o.cmds {
+				if x == ci {
+					pos = k
+				}
+			}
+			if pos >= 0 && e.call >= 1 && e.call-1 < len(o.exp) && pos >= o.exp[e.call-1] {
+				return rueidis.NewErrorResult(rueidis.VerifRoutingErrConnExpired())
+			}
+			if inner != nil {
+				return inner(addr, e, i, ctx)
+			}
+			return okResult()
+		}
+	}
 	if p := invoke(client, o.api, o.cmds); p != "" {
 		return p, nil
 	}
 	log := w.take()
+	if o.lft {
+		// one item per connection call: batch position of its first command @ role of the node
+		var calls []string
+		for _, e := range log {
+			d, known := roleOf[e.addr]
+			if !known || len(e.cmds) == 0 {
+				return "unknown-addr:" + e.addr, nil
+			}
+			r := d.role
+			if (o.sel == nil && o.nrep > 1 && o.mode == "sa") && strings.HasPrefix(r, "R") {
+				r = "R*"
+			}
+			first := -1
+			for k, x := range o.cmds {
+				if x == cmdIndex(e.cmds[0]) {
+					first = k
+				}
+			}
+			calls = append(calls, strconv.Itoa(first)+"@"+r)
+			for _, a := range e.cmds {
+				dd := d
+				dd.idx = cmdIndex(a)
+				items = append(items, dd)
+			}
+		}
+		return joinList(calls, ","), items
+	}
 	// canonicalise: per command (in call order) the role of the node that got it
 	got := map[int][]delivered{}
 	for _, e := range log {
@@ -551,6 +625,29 @@ func runRoute(c *Ctx) {
 				}
 				for mask := 0; mask < 16; mask++ {
 					emitRoute(c, routeOp{mode: "se", api: api, ro: cfg[0], pred: cfg[1], mask: mask, cmds: bt})
+				}
+			}
+		}
+	}
+	// ---- ConnLifetime recovery inside a batch: the primary / replica connection expires in the middle
+	lbatches := [][]int{{1, 0, 2}, {0, 1}, {1, 0}, {0, 2, 3}, {1, 2, 3}, {0, 1, 2, 3}, {2}}
+	exps := [][]int{{}, {0}, {1}, {2}, {1, 2}, {1, 1}, {0, 2}, {3}, {1, 2, 3}}
+	for _, api := range []string{"multi", "mcache"} {
+		for _, bt := range lbatches {
+			if api == "mcache" && !cacheable(bt) {
+				continue
+			}
+			for _, ex := range exps {
+				for _, mask := range []int{0, 13, 15, 5, 12, 1} {
+					for _, cfg := range [][2]bool{{false, true}, {true, false}, {false, false}} {
+						if !cfg[1] && mask != 0 {
+							continue
+						}
+						emitRoute(c, routeOp{mode: "se", api: api, ro: cfg[0], pred: cfg[1], mask: mask, cmds: bt, lft: true, exp: ex})
+					}
+					for _, nrep := range []int{1, 2} {
+						emitRoute(c, routeOp{mode: "sa", api: api, nrep: nrep, pred: true, mask: mask, cmds: bt, lft: true, exp: ex})
+					}
 				}
 			}
 		}
